@@ -333,6 +333,9 @@ class Exec(CallsMixin):
         cur = st
         for case in node.cases:
             cond = self.match_pattern(case.pattern, subj, cur, node)
+            capture = case.pattern.name if isinstance(case.pattern, ast.MatchAs) and case.pattern.pattern is None else None
+            if capture:
+                cur.vars[capture] = subj  # a capture pattern binds before its guard is evaluated
             if case.guard is not None:
                 cond = z3.And(cond, self.truth(self.eval(case.guard, cur), cur, node))
             cs = z3.simplify(cond)
